@@ -1,28 +1,40 @@
 """Real WorkerPool.imap / WorkerPool.map (pool.py 419-494, 552-643) with imap_unordered / map_unordered scripted."""
 
 
-def run_imap(arrivals):
+# results are results whatever their truth value: with `falsy` the values 100..105 travel as these objects
+FALSY = {100: None, 101: 0, 102: '', 103: False, 104: [], 105: 0.0}
+
+
+def _enc(v):
+    for k, f in FALSY.items():
+        if type(v) is type(f) and v == f:
+            return k
+    return v
+
+
+def run_imap(arrivals, falsy=False):
     """arrivals: list of (idx, val).  Returns (values yielded by the real imap, number yielded when each arrival was requested + at the end)"""
     from mpire import WorkerPool
     pool = WorkerPool(1, start_method='threading')
     got, asked = [], []
 
     def fake(*a, **k):
-        for r in arrivals:
+        for idx, val in arrivals:
             asked.append(len(got))
-            yield r
+            yield (idx, FALSY.get(val, val) if falsy else val)
         asked.append(len(got))
     pool.imap_unordered = fake
     for v in pool.imap(None, [None] * len(arrivals)):
-        got.append(v)
+        got.append(_enc(v) if falsy else v)
     return got, asked
 
 
-def run_map(results):
+def run_map(results, falsy=False):
     from mpire import WorkerPool
     pool = WorkerPool(1, start_method='threading')
-    pool.map_unordered = lambda *a, **k: list(results)
-    return pool.map(None, [None] * len(results))
+    pool.map_unordered = lambda *a, **k: [(i, FALSY.get(v, v) if falsy else v) for i, v in results]
+    out = pool.map(None, [None] * len(results))
+    return [_enc(v) for v in out] if falsy else out
 
 
 def gen_arrivals(rng, n):
